@@ -1,6 +1,6 @@
 """What is claimed, per property. A property appears in CLAIMS only once its checker exists and
 passes on the unchanged tree."""
-FIX_COMMITS = ["4e9e139", "5ee6583", "744f482", "eb93a13"]
+FIX_COMMITS = ["4e9e139", "5ee6583", "744f482", "eb93a13", "ceb972a", "a924d81"]
 
 CLAIMS = {
     "C09": dict(
@@ -48,6 +48,25 @@ CLAIMS = {
         ref="DESIGN.md §3 C12",
         note="trusts inspect.signature's parameter order; truth contributed to enclosing operators is C01",
         technique="static analysis: call-site argument/signature alignment rule + dispatch-shape check on resolved ASTs",
+    ),
+    "C13": dict(
+        text="Decides the structural conditions of the census: every allocator in the Symbol cone registers what it returns (CFG "
+             "dominance; registration excludes only predicates), the lookup covers the type and its subclasses with each class "
+             "once (de-duplication on the def-use path), the public evaluation entry sweeps dead instances first, and the registry "
+             "is read inside the evaluation closure of the call graph. The census over arbitrary histories is covered by induction "
+             "over single operations, not enumerated.",
+        ref="DESIGN.md §3 C13",
+        note="trusts CPython's __subclasses__() and that instances are created through their class; one known finding (SG-EVALTIME)",
+        technique="static analysis: CFG must-pass-through for registration, call-graph phase closure (who-may-call), def-use dedup rule",
+    ),
+    "C14": dict(
+        text="Decides the inductive step of history independence: every parallel structure written on an insertion path of the symbol "
+             "graph is purged on the node-removal path; id()-keyed entries are removed through a stored id, only while owned, and "
+             "lookups validate the referent; existence check / edge / index share one key and inference is control-dependent on the "
+             "'newly added' verdict. Arbitrary histories are not enumerated.",
+        ref="DESIGN.md §3 C14",
+        note="trusts rustworkx's index recycling / edge removal semantics and CPython's id() reuse",
+        technique="static analysis: effect analysis (add/remove sites per structure over call closures), id-key hygiene rule, decision table of add_relation",
     ),
 }
 
